@@ -192,4 +192,18 @@ def pathMapMatches (regs : List Reg) (mdl : String) (props : List (String × Lvl
   | none => true
   | some f => f.matches props
 
+/-! ### `Path::is_child_of` (/repo/core/src/path.rs:137-150) -/
+
+/-- On chars: `parent` is a prefix of `child` and what follows is nothing or starts with `::`. (The byte-level
+    `is_char_boundary(parent.len())` test is implied by the prefix comparison succeeding.) -/
+def isChildOf (child parent : List Char) : Bool :=
+  parent.isPrefixOf child &&
+    ((child.drop parent.length).isEmpty || (child.drop parent.length).take 2 == [':', ':'])
+
+/-- join segments with `::` -/
+def joinSegs : List (List Char) → List Char
+  | [] => []
+  | [s] => s
+  | s :: t :: rest => s ++ ':' :: ':' :: joinSegs (t :: rest)
+
 end EmitModel.Level
